@@ -13,6 +13,7 @@ import multiprocessing as mp
 import random
 
 import common_check as cc
+import engine_corr as ec
 import lib
 from checks import c04
 
@@ -73,7 +74,7 @@ def _slice(args):
         for s in sorted(frags):
             offs = range(len(s) + 1) if len(s) <= 6 else sorted({0, rng.randint(0, len(s)), len(s)})
             for i in offs:
-                cases.append((X, s, i, lib.py_lparse(P, rule, s, i, full=False)))
+                cases.append((X, s, i, ec.py_lparse_disturbed(P, rule, s, i)[0]))
     lines = []
     for X, s, i, py in cases:
         c = lib.cps(s)
@@ -129,7 +130,7 @@ def run(ctx):
 def replay(rp):
     P = lib.import_repo()
     s = "".join(chr(c) for c in rp["source"])
-    py = lib.py_lparse(P, P.ABNFGrammarRule(rp["rule"]), s, rp["offset"], full=False)
+    py = ec.py_lparse_disturbed(P, P.ABNFGrammarRule(rp["rule"]), s, rp["offset"])[0]
     c = lib.cps(s)
     out = lib.run_driver([f"rfcends {rp['rule']} {rp['offset']}" + ((" " + c) if c else "")])
     print("reader:", py, "RFC grammar:", out[0])
